@@ -1,8 +1,161 @@
-(* C13 - provisional (main theorem to be added) *)
-From PV Require Import Runs.Model Runs.Spec Edges.Model Edges.Spec Edges.ProofsBasic.
+(* C13 - Edge detection reports every clean transition once, at its exact sample.
+   Property theorems only; every proof is `exact <lemma of Edges/Proofs*.v>`.
+   Model: Edges/Model.v (pipeline.edges, Events, combine_events) on top of Runs/Model.v (C18). *)
+From PV Require Import Runs.Model Runs.Spec Edges.Model Edges.Spec Edges.ProofsBasic Edges.ProofsMain.
 
+(* One block per chunk; block k spans [first - m + n_1 + .. + n_(k-1), .. + n_k): the blocks tile the
+   timeline from first - m on, without gap or overlap.  Holds for every input (also when the run stops
+   on an error: the blocks emitted so far are a prefix of the tiling). *)
 Theorem C13_blocks_tile : forall d m init fs cs bs s, run_edges d m init fs cs = (bs, s) ->
   map span bs = firstn (length bs) (spans (first_index cs - m) (map clen cs)) /\
   (length bs <= length cs)%nat /\ (s = Ok -> length bs = length cs).
 Proof. exact blocks_tile. Qed.
 Print Assumptions C13_blocks_tile.
+
+(* the same as a chain: start_0 = first - m, start_k <= end_k = start_(k+1) *)
+Theorem C13_blocks_chain : forall d m init fs cs bs s, run_edges d m init fs cs = (bs, s) ->
+  chain (first_index cs - m) bs.
+Proof. exact blocks_chain. Qed.
+Print Assumptions C13_blocks_chain.
+
+(* A range query is refused exactly when it leaves the block's span; otherwise it returns, in order and
+   with multiplicity, exactly the block's events whose sample lies in [a, b), as a block spanning [a, b). *)
+Theorem C13_range_query : forall E a b,
+  match get_range_samples E a b with
+  | Some R => e_start E <= a /\ b <= e_end E /\
+              e_start R = a /\ e_end R = b /\ e_fs R = e_fs E /\
+              evs R = filter (in_range a b) (evs E) /\
+              (forall e, In e (evs R) <-> In e (evs E) /\ a <= snd e < b) /\
+              (forall e, count_occ ev_dec (evs R) e =
+                         if in_range a b e then count_occ ev_dec (evs E) e else 0%nat)
+  | None => a < e_start E \/ e_end E < b
+  end.
+Proof. exact range_query. Qed.
+Print Assumptions C13_range_query.
+
+Theorem C13_latest_is_range : forall E lb ub,
+  get_latest_samples E lb ub = get_range_samples E (e_end E + lb) (e_end E + ub).
+Proof. exact latest_is_range. Qed.
+Print Assumptions C13_latest_is_range.
+
+(* Merging succeeds exactly on a non-empty list of adjacent blocks with one rate ... *)
+Theorem C13_combine : forall l,
+  (l <> [] /\ adjacent l /\ same_fs l) <-> exists E, combine_events l = COk E.
+Proof. exact combine_ok. Qed.
+Print Assumptions C13_combine.
+
+(* ... and is list append: every event occurs in the result as often as in all blocks together
+   (nothing lost, nothing duplicated), in block order, over the span first start .. last end *)
+Theorem C13_combine_result : forall l E, combine_events l = COk E ->
+  evs E = concat (map evs l) /\
+  (forall e, count_occ ev_dec (evs E) e = sum_counts e l) /\
+  (forall e, In e (evs E) <-> exists B, In B l /\ In e (evs B)) /\
+  e_start E = e_start (hd E l) /\ e_end E = e_end (last l E) /\ e_fs E = e_fs (hd E l).
+Proof. exact combine_result. Qed.
+Print Assumptions C13_combine_result.
+
+(* the blocks edges emits can always be merged *)
+Theorem C13_edges_blocks_combine : forall d m init fs cs bs s, run_edges d m init fs cs = (bs, s) ->
+  bs <> [] -> exists E, combine_events bs = COk E /\ evs E = concat (map evs bs).
+Proof. exact edges_blocks_combine. Qed.
+Print Assumptions C13_edges_blocks_combine.
+
+(* One step, for ANY state with m carried samples whose joined array w = prior ++ chunk meets the
+   run-length precondition: it reports, in order, exactly the rising edges of w at positions 1 .. n
+   (absolute s0 < r <= s0 + n) and the falling edges at positions m .. m + n - 1
+   (absolute s0 + m <= f < s0 + m + n), n = chunk length, filtered by `detect`. *)
+Theorem C13_step_characterisation : forall d m st c, 1 <= m -> zlen (st_prior st) = m ->
+  joinable st c = true -> wclean m (st_prior st ++ c_data c) ->
+  exists E st', step d m st c = Some (E, st') /\
+    e_start E = st_s0 st /\ e_end E = st_s0 st + zlen (c_data c) /\ st_s0 st' = e_end E /\
+    zlen (st_prior st') = m /\ inc (evs E) /\
+    forall k a, In (k, a) (evs E) <->
+      wanted d (k, a) = true /\
+      exists p, a = p + st_s0 st /\ edge_at (st_prior st ++ c_data c) p k /\
+                (k = Rising -> p <= zlen (c_data c)) /\ (k = Falling -> m <= p).
+Proof. exact step_characterisation. Qed.
+Print Assumptions C13_step_characterisation.
+
+(* THE MAIN THEOREM.  For every debounce length m >= 1, initial state, detect mode, first index, and EVERY
+   chunking cs (chunks of any length, empty ones included, plain or annotated) of a stream in which every
+   run that has ended is longer than m (`clean`; the initial state counts as a settled run):
+   the coroutine never raises, and after ANY number kk of chunks the events reported so far are - as a
+   list: once each, in order, with their absolute sample numbers - exactly the transitions of the whole
+   stream that are due when the input has reached T = first + (samples in the first kk chunks):
+   every falling edge at a sample < T, every rising edge at r with r + m <= T.
+   So a transition at t is reported by the chunk that supplies sample t + m - 1 at the latest,
+   i.e. no later than m - 1 (< debounce) samples of further input after it occurred. *)
+Theorem C13_all_chunkings : forall d m init fs_arg cs first,
+  1 <= m -> input_ok first cs -> clean m init (stream cs) = true ->
+  exists bs, run_edges d m init fs_arg cs = (bs, Ok) /\
+    forall kk : nat,
+      concat (map evs (firstn kk bs)) =
+      filter (wanted d)
+        (filter (due_by m (first + zlen (stream (firstn kk cs)))) (transitions init first (stream cs))).
+Proof. exact all_chunkings. Qed.
+Print Assumptions C13_all_chunkings.
+
+(* the whole run at once; and every event of a block lies after the block's start and less than m
+   samples after its end *)
+Theorem C13_all_chunkings_whole : forall d m init fs_arg cs first,
+  1 <= m -> input_ok first cs -> clean m init (stream cs) = true ->
+  exists bs, run_edges d m init fs_arg cs = (bs, Ok) /\
+    concat (map evs bs) =
+    filter (wanted d) (filter (due_by m (first + zlen (stream cs))) (transitions init first (stream cs))) /\
+    (forall E e, In E bs -> In e (evs E) -> e_start E < snd e < e_end E + m).
+Proof. exact all_chunkings_whole. Qed.
+Print Assumptions C13_all_chunkings_whole.
+
+(* when the stream has been steady for its last m samples nothing is pending: the events are exactly
+   the transitions of the stream *)
+Theorem C13_all_transitions_when_settled : forall d m init fs_arg cs first,
+  1 <= m -> input_ok first cs -> clean m init (stream cs) = true -> settled m init (stream cs) = true ->
+  exists bs, run_edges d m init fs_arg cs = (bs, Ok) /\
+    concat (map evs bs) = filter (wanted d) (transitions init first (stream cs)).
+Proof. exact all_transitions_when_settled. Qed.
+Print Assumptions C13_all_transitions_when_settled.
+
+(* the precondition is needed: on a stream with a 1-sample glitch the events depend on the chunking *)
+Theorem C13_unclean_chunking_dependent :
+  exists m init x c1 c2,
+    clean m init x = false /\ stream c1 = x /\ stream c2 = x /\ input_ok 0 c1 /\ input_ok 0 c2 /\
+    concat (map evs (fst (run_edges DBoth m init 1000 c1))) <>
+    concat (map evs (fst (run_edges DBoth m init 1000 c2))).
+Proof. exact unclean_chunking_dependent. Qed.
+Print Assumptions C13_unclean_chunking_dependent.
+
+(* observation (not claimed by the property): a block may hold an event outside its own span *)
+Theorem C13_event_outside_block :
+  exists m init cs bs E,
+    clean m init (stream cs) = true /\ input_ok 0 cs /\
+    run_edges DBoth m init 1000 cs = (bs, Ok) /\ In E bs /\ ~ contained E.
+Proof. exact event_outside_block. Qed.
+Print Assumptions C13_event_outside_block.
+
+(* a block whose events lie inside its span is returned whole by the query over its span
+   (range queries themselves always answer with such a block) *)
+Theorem C13_range_whole : forall E, contained E -> get_range_samples E (e_start E) (e_end E) = Some E.
+Proof. exact range_whole. Qed.
+Print Assumptions C13_range_whole.
+
+(* non-vacuity: a chunked stream meeting all hypotheses of C13_all_chunkings *)
+Example C13_ex :
+  let cs := [plain [false; true]; plain [true; true; false]; plain []; plain [false; false; true; true]] in
+  1 <= 2 /\ input_ok 0 cs /\ clean 2 false (stream cs) = true /\
+  concat (map evs (fst (run_edges DBoth 2 false 1000 cs))) = [(Rising, 1); (Falling, 4); (Rising, 7)].
+Proof. exact all_chunkings_ex. Qed.
+Example C13_ex_annotated :
+  let cs := [{| c_ann := Some (7, 1000); c_data := [true; true; true] |};
+             {| c_ann := Some (10, 1000); c_data := [false; false; false] |}] in
+  input_ok 7 cs /\ clean 2 false (stream cs) = true /\ settled 2 false (stream cs) = true /\
+  run_edges DBoth 2 false 0 cs =
+  ([{| evs := [(Rising, 7)]; e_start := 5; e_end := 8; e_fs := 1000 |};
+    {| evs := [(Falling, 10)]; e_start := 8; e_end := 11; e_fs := 1000 |}], Ok).
+Proof.
+  cbn zeta. split; [right; exists 1000; cbn; repeat split|]. repeat split; vm_compute; reflexivity.
+Qed.
+Example C13_ex_step : wclean 2 ([false; false] ++ [true; true; true]) /\
+  joinable {| st_prior := [false; false]; st_s0 := -2; st_fs := 1000; st_ann := false |} (plain [true; true; true]) = true.
+Proof.
+  split; [|reflexivity]. exact (clean_wclean 2 false [true; true; true] ltac:(discriminate) eq_refl).
+Qed.
